@@ -100,11 +100,23 @@ class WTap:
                 tap.notes.append(f"draw from a generator the model does not know: {s._n}.{attr}")
                 return getattr(s._t, attr)
         np.random.randint, np.random.choice = randint, choice
+        # any other draw from numpy's global generator is a draw the model does not know
+        self.other = {}
+        for name in ("rand", "randn", "random", "random_sample", "uniform", "shuffle", "permutation", "random_integers", "normal", "bytes"):
+            if hasattr(np.random, name):
+                f0 = getattr(np.random, name); self.other[name] = f0
+                def mk(name, f0):
+                    def g(*a, **k):
+                        tap.notes.append(f"draw from numpy's global generator through np.random.{name}, which the model does not know")
+                        return f0(*a, **k)
+                    return g
+                setattr(np.random, name, mk(name, f0))
         G.random = Foreign("random", self.orig["pr"]); G.numpy_rng = Foreign("numpy_rng", self.orig["nrng"])
         return self
 
     def __exit__(self, *a):
         np.random.randint, np.random.choice = self.orig["randint"], self.orig["choice"]
+        for name, f0 in getattr(self, "other", {}).items(): setattr(np.random, name, f0)
         self.G.random, self.G.numpy_rng = self.orig["pr"], self.orig["nrng"]
 
 
